@@ -160,3 +160,22 @@ Theorem C12_b64_integrator_overshoot : forall (es : list (R * R)) (s : pidR) (E 
   r_sum_bound rnd64 (fold_left (fun st fe => pid_pos_ (Rnd_ops rnd64) st (fst fe) (snd fe)) es s) E.
 Proof. exact b64_integrator_overshoot. Qed.
 Print Assumptions C12_b64_integrator_overshoot.
+
+(* ------------------------------------------------------------------------------------------------------------------
+   ON THE PRIMITIVE-FLOAT RUN (C12/PidFloat.v, Common/F64Refine.v) - the instance compared bit for bit with the C.  For finite
+   output limits outmin <= outmax and ANY state, gains, set-point and feedback - NaN and the infinities included - every
+   step function stores a finite output within the limits, and so does every non-empty history of open-loop, positional
+   and incremental steps.  No overflow hypothesis: A_SAT maps NaN to the lower limit and +-inf to a limit. *)
+From Coq Require Floats.
+From LibaV Require Import Common.FloatOps Common.RoundFlocq Common.F64Refine C12.PidFloat.
+Theorem C12_f64_output_in_limits : forall (s : @pid Floats.PrimFloat.float) (set f e : Floats.PrimFloat.float), lim_ok s ->
+  (out_ok (pid_run_ F64_ops s set f e) /\ lim_ok (pid_run_ F64_ops s set f e)) /\
+  (out_ok (pid_pos_ F64_ops s f e) /\ lim_ok (pid_pos_ F64_ops s f e)) /\
+  (out_ok (pid_inc_ F64_ops s f e) /\ lim_ok (pid_inc_ F64_ops s f e)).
+Proof. exact f64_pid_out_in_limits. Qed.
+Print Assumptions C12_f64_output_in_limits.
+
+Theorem C12_f64_history_in_limits : forall (s : @pid Floats.PrimFloat.float) (cs : list pstep), lim_ok s -> cs <> nil ->
+  out_ok (List.fold_left pstep_apply cs s).
+Proof. exact f64_pid_history_in_limits. Qed.
+Print Assumptions C12_f64_history_in_limits.
